@@ -1,6 +1,6 @@
 #!/bin/bash
 # usage: confirm_seed.sh <ID> <n>  - confirms seed n of /tmp/wt/seed_<ID> (suite passes with the change, demo fails with / passes without) and stores it under /verif/seeded/
-ID=$1; N=$2; WT=${3:-/tmp/wt/seed_$ID}
+ID=$1; N=$2; WT=${3:-/tmp/wt/seed_$ID}; NAME=${4:-$ID-$N}
 cd $WT || exit 9
 git checkout -q -- . ; git apply --check _seed/change$N.diff || { echo "does not apply"; exit 9; }
 PYTHONPATH=$WT timeout 600 /venv/bin/python _seed/demo$N.py > /tmp/wt/demo_clean.out 2>&1; clean=$?
@@ -8,10 +8,11 @@ git apply _seed/change$N.diff
 suite=$(PYTHONPATH=$WT /venv/bin/python -m pytest -q -p no:cacheprovider -n 6 --deselect tests/test_locations.py::TestLocations::test_is_unc_path_function --deselect tests/test_locations.py::TestLocations::test_normalize_url_slashes 2>&1 | tail -1)
 PYTHONPATH=$WT timeout 600 /venv/bin/python _seed/demo$N.py > /tmp/wt/demo_mut.out 2>&1; mut=$?
 git checkout -q -- .
-echo "$ID-$N: demo clean rc=$clean, demo with change rc=$mut, suite with change: $suite"
+echo "$NAME: demo clean rc=$clean, demo with change rc=$mut, suite with change: $suite"
 if [ $clean -eq 0 ] && [ $mut -ne 0 ] && echo "$suite" | grep -q "1528 passed" && ! echo "$suite" | grep -q failed; then
-  D=/verif/seeded/$ID-$N; mkdir -p $D
+  D=/verif/seeded/$NAME; mkdir -p $D
   cp _seed/change$N.diff $D/patch.diff; cp _seed/demo$N.py $D/demo.py
+  cp _seed/notes.md $D/notes.md 2>/dev/null
   echo CONFIRMED
 else
   echo NOT-CONFIRMED
